@@ -22,7 +22,7 @@ var namedSpec = func() *ref.Struct {
 	return s
 }()
 
-var c12Styles = []string{"frugal", "thrift", "frugal+conflicting-thrift", "minimal", "spaces+byte", "thrift-minimal-spaces", "qualified-names"}
+var c12Styles = []string{"frugal", "thrift", "frugal+conflicting-thrift", "minimal", "spaces+byte", "thrift-minimal-spaces", "qualified-names", "zero-padded-ids", "typeless-with-options"}
 
 // derivable: the annotation may be omitted (no list/set/enum inside).
 func derivable(t *ref.Type) bool {
@@ -93,6 +93,15 @@ func spellTag(f *ref.Field, style int) string {
 		}
 	}
 	switch style {
+	case 7:
+		// ids are decimal numbers however they are padded ("010" is ten, not eight)
+		return `frugal:"` + fmt.Sprintf("%05d", f.ID) + canon[strings.Index(canon, ","):] + `"`
+	case 8:
+		// the type descriptor may be left out (when derivable) even when options follow
+		if derivable(f.Type) && f.NoCopy {
+			return `frugal:"` + fmt.Sprintf("%d,%s,,nocopy", f.ID, f.Req) + `"`
+		}
+		return `frugal:"` + minimal + `"`
 	case 1:
 		return `thrift:"` + strings.ToLower(f.Name) + "," + canon + `"`
 	case 2:
@@ -206,7 +215,7 @@ func init() {
 	harness.Register(&harness.Check{
 		ID:          "C12",
 		Level:       "model_checking",
-		Explanation: "Bounded exhaustive enumeration (E1): every schema of the tag-grammar family (single fields over T2 and a slice of T3 in every shell, named structs in every position, nocopy) x 7 equivalent tag spellings (frugal / thrift / frugal with a conflicting thrift tag / omitted requiredness and annotation / spaces and byte / thrift minimal with spaces / package-qualified names) x with and without decoy fields (untagged, unexported-but-tagged, embedded-with-tagged-field). For each: the reference tag parser must read the generator's schema back from the built Go type (else harness error); the real encoder/decoder must agree with the reference model driven by the generator's schema for every alphabet value; decoys never reach the wire and are never written.",
+		Explanation: "Bounded exhaustive enumeration (E1): every schema of the tag-grammar family (single fields over T2 and a slice of T3 in every shell, named structs in every position, nocopy) x 9 equivalent tag spellings (frugal / thrift / frugal with a conflicting thrift tag / omitted requiredness and annotation / spaces and byte / thrift minimal with spaces / package-qualified names / zero-padded ids / omitted annotation followed by options) x with and without decoy fields (untagged, unexported-but-tagged, embedded-with-tagged-field). For each: the reference tag parser must read the generator's schema back from the built Go type (else harness error); the real encoder/decoder must agree with the reference model driven by the generator's schema for every alphabet value; decoys never reach the wire and are never written.",
 		Assumptions: []string{"go1.23.5 toolchain", "tag language = DESIGN.md Appendix A; leniencies outside it are never generated"},
 		Phases: func(tier universe.Tier) []*harness.Phase {
 			return []*harness.Phase{{
